@@ -3,7 +3,7 @@
 # (or reverse-applied with -R, e.g. to re-introduce a fixed defect). Never touches /repo; no evidence is written.
 set -e
 ID=$1; PATCH=$2; REV=$3
-S=/tmp/mut_$$
+S=/tmp/mut_repo; rm -rf $S
 rsync -a --exclude _build --exclude .git /repo/ $S/
 (cd $S && patch -p1 $REV --no-backup-if-mismatch -s < "$PATCH")
 cd /verif
